@@ -1556,7 +1556,7 @@ func rootObj(info *types.Info, e ast.Expr) types.Object {
 
 func init() {
 	register(&Rule{
-		ID: "C10.contract-checks-unconditional", Prop: "C10", Also: []string{"C04", "C11"}, Floor: 4, Controls: 0,
+		ID: "C10.contract-checks-unconditional", Prop: "C10", Also: []string{"C04", "C11"}, Floor: 2, Controls: 0,
 		Doc: "in returnTypeForValues and Call every rejection of an argument (a return of an ArgError: null not allowed, dynamic not allowed, wrong type) is independent of the argument's marks: it is neither nested in a branch whose condition consults marks (IsMarked / ContainsMarked / AllowMarked) nor reached only after such a condition was decided — marking an argument must not switch a contract check off",
 		Run: runContractChecksUnconditional,
 	})
@@ -1585,11 +1585,57 @@ func runContractChecksUnconditional(rr *RuleRun) {
 	c := rr.Ctx
 	pkg := "cty/function"
 	info := c.Info(pkg)
+	type unit struct {
+		name string
+		fd   *ast.FuncDecl
+	}
+	var units []unit
+	seenUnit := map[*ast.FuncDecl]bool{}
 	for _, name := range []string{"Function.returnTypeForValues", "Function.Call"} {
 		fd := rr.MustDecl(pkg, name)
 		if fd == nil {
 			continue
 		}
+		units = append(units, unit{name, fd})
+		seenUnit[fd] = true
+		// helpers of the same package called with an argument value: their rejections count too, and the
+		// call itself must not sit under a condition on marks
+		inspectNoLit(fd.Body, func(n ast.Node) bool {
+			call, ok := n.(*ast.CallExpr)
+			if !ok {
+				return true
+			}
+			f := callee(info, call)
+			if f == nil || shortPkg(f.Pkg()) != pkg {
+				return true
+			}
+			hd := c.Decl(pkg, funcDeclKey(f))
+			if hd == nil || hd.Body == nil || seenUnit[hd] {
+				return true
+			}
+			builds := false
+			inspectNoLit(hd.Body, func(m ast.Node) bool {
+				if hc, ok := m.(*ast.CallExpr); ok && isCall(info, hc, pkg+".NewArgErrorf", pkg+".NewArgError") {
+					builds = true
+				}
+				return true
+			})
+			if !builds {
+				return true
+			}
+			seenUnit[hd] = true
+			units = append(units, unit{name + "→" + f.Name(), hd})
+			var child ast.Node = call
+			for p := c.Parent(call); p != nil && p != ast.Node(fd.Body); child, p = p, c.Parent(p) {
+				if is, ok := p.(*ast.IfStmt); ok && child != ast.Node(is.Cond) && child != ast.Node(is.Init) && mentionsMarks(info, is.Cond) {
+					rr.Violation(fmt.Sprintf("%s.%s/call %s", pkg, name, f.Name()), call.Pos(), fmt.Sprintf("the contract checks of %s run only in a branch of 'if %s': whether the argument is marked decides whether they run", f.Name(), trunc(exprStr(is.Cond), 60)))
+				}
+			}
+			return true
+		})
+	}
+	for _, u := range units {
+		name, fd := u.name, u.fd
 		cf := c.CondFacts(fd.Body, info, nil)
 		inspectNoLit(fd.Body, func(n ast.Node) bool {
 			ret, ok := n.(*ast.ReturnStmt)
@@ -1903,27 +1949,47 @@ func runFirstOperandLikeTheRest(rr *RuleRun) {
 	statePreds := map[string]bool{"IsWhollyKnown": true, "IsKnown": true, "IsNull": true, "IsMarked": true, "ContainsMarked": true}
 	eachFuncBody(c, []string{"cty/function/stdlib"}, func(pkg string, fd *ast.FuncDecl, body *ast.BlockStmt) {
 		info := c.Info(pkg)
-		// the tail loop
-		var loop *ast.RangeStmt
-		var argsObj types.Object
+		// the tail loop: 'for _, x := range args[1:]' or 'for i := 1; i < len(args); i++ { … args[i] … }'
+		var loop ast.Stmt
+		var loopBody *ast.BlockStmt
+		var argsObj, loopVar, idxVar types.Object
 		for _, st := range body.List {
-			rs, ok := st.(*ast.RangeStmt)
-			if !ok {
-				continue
+			switch rs := st.(type) {
+			case *ast.RangeStmt:
+				sl, ok := ast.Unparen(rs.X).(*ast.SliceExpr)
+				if !ok || sl.High != nil || rs.Value == nil {
+					continue
+				}
+				if v, ok := constInt(info, sl.Low); !ok || v != 1 {
+					continue
+				}
+				if t, ok := info.TypeOf(sl.X).Underlying().(*types.Slice); !ok || !isCtyValue(t.Elem()) {
+					continue
+				}
+				loop, loopBody, argsObj, loopVar = rs, rs.Body, objOf(info, sl.X), objOf(info, rs.Value)
+			case *ast.ForStmt:
+				as, ok := rs.Init.(*ast.AssignStmt)
+				if !ok || len(as.Lhs) != 1 || len(as.Rhs) != 1 {
+					continue
+				}
+				if v, ok := constInt(info, as.Rhs[0]); !ok || v != 1 {
+					continue
+				}
+				be, ok := rs.Cond.(*ast.BinaryExpr)
+				if !ok || be.Op != token.LSS || objOf(info, be.X) != objOf(info, as.Lhs[0]) {
+					continue
+				}
+				lc, ok := ast.Unparen(be.Y).(*ast.CallExpr)
+				if !ok || !isBuiltin(info, lc, "len") || len(lc.Args) != 1 {
+					continue
+				}
+				if t, ok := info.TypeOf(lc.Args[0]).Underlying().(*types.Slice); !ok || !isCtyValue(t.Elem()) {
+					continue
+				}
+				loop, loopBody, argsObj, idxVar = rs, rs.Body, objOf(info, lc.Args[0]), objOf(info, as.Lhs[0])
 			}
-			sl, ok := ast.Unparen(rs.X).(*ast.SliceExpr)
-			if !ok || sl.High != nil {
-				continue
-			}
-			if v, ok := constInt(info, sl.Low); !ok || v != 1 {
-				continue
-			}
-			if t, ok := info.TypeOf(sl.X).Underlying().(*types.Slice); !ok || !isCtyValue(t.Elem()) {
-				continue
-			}
-			loop, argsObj = rs, objOf(info, sl.X)
 		}
-		if loop == nil || argsObj == nil || loop.Value == nil {
+		if loop == nil || argsObj == nil || (loopVar == nil && idxVar == nil) {
 			return
 		}
 		// families
@@ -1975,14 +2041,27 @@ func runFirstOperandLikeTheRest(rr *RuleRun) {
 			return ok && v == 0
 		}
 		head := family(isArgs0, body, loop.Pos())
-		loopVar := objOf(info, loop.Value)
-		tail := family(func(e ast.Expr) bool { return objOf(info, e) == loopVar && loopVar != nil }, loop.Body, token.NoPos)
-		tail[loopVar] = true
+		isTailSeed := func(e ast.Expr) bool {
+			if loopVar != nil && objOf(info, e) == loopVar {
+				return true
+			}
+			if ix, ok := ast.Unparen(e).(*ast.IndexExpr); ok && idxVar != nil {
+				return objOf(info, ix.X) == argsObj && objOf(info, ix.Index) == idxVar
+			}
+			return false
+		}
+		tail := family(isTailSeed, loopBody, token.NoPos)
+		if loopVar != nil {
+			tail[loopVar] = true
+		}
 		inFam := func(fam map[types.Object]bool, e ast.Expr, isHead bool) bool {
 			if o := objOf(info, e); o != nil && fam[o] {
 				return true
 			}
-			return isHead && isArgs0(e)
+			if isHead {
+				return isArgs0(e)
+			}
+			return isTailSeed(e)
 		}
 		// treated alike: some accessor is applied to a head variable and to a tail variable
 		applied := func(fam map[types.Object]bool, root ast.Node, isHead bool) map[string]bool {
@@ -1999,7 +2078,7 @@ func runFirstOperandLikeTheRest(rr *RuleRun) {
 			})
 			return out
 		}
-		ha, ta := applied(head, body, true), applied(tail, loop.Body, false)
+		ha, ta := applied(head, body, true), applied(tail, loopBody, false)
 		alike := ""
 		for k := range ta {
 			if ha[k] && k != "Type" {
@@ -2052,7 +2131,7 @@ func runFirstOperandLikeTheRest(rr *RuleRun) {
 			return out
 		}
 		hg := guards(head, body.List, loop.Pos(), true)
-		tg := guards(tail, loop.Body.List, token.NoPos, false)
+		tg := guards(tail, loopBody.List, token.NoPos, false)
 		key := fmt.Sprintf("%s.%s/args[0]~args[1:]", pkg, declName(fd))
 		var missing []string
 		var pos token.Pos
@@ -2638,7 +2717,7 @@ func runExtBodyConsumed(rr *RuleRun) {
 
 func init() {
 	register(&Rule{
-		ID: "C06.constructor-consistency-agreement", Prop: "C06", Also: []string{"C17", "C08"}, Floor: 4, Controls: 0,
+		ID: "C06.constructor-consistency-agreement", Prop: "C06", Also: []string{"C17", "C08"}, Floor: 2, Controls: 0,
 		Doc: "sibling agreement between ListVal, MapVal, SetVal and their Can*Val predicates: the condition under which a member's type is rejected as inconsistent with the element type seen so far is the same in all six (after renaming locals) — the constructors must reject exactly what the predicates report, and lists, maps and sets must not differ in which mixtures of member types they admit",
 		Run: runConstructorConsistencyAgreement,
 	})
@@ -2679,7 +2758,12 @@ func runConstructorConsistencyAgreement(rr *RuleRun) {
 			return true
 		})
 	}
-	if len(guards) < 4 {
+	for _, name := range names {
+		if _, ok := guards[name]; !ok && c.Decl("cty", name) != nil {
+			rr.Assumed("cty."+name+"/consistency-guard", c.Decl("cty", name).Pos(), "the member-type test is not an if / else-if chain in the loop over the members (delegated to a helper or written differently): not compared")
+		}
+	}
+	if len(guards) < 2 {
 		rr.Broken(fmt.Sprintf("stale anchor: the element-type consistency guard was found in only %d of the six constructors / predicates", len(guards)))
 		return
 	}
